@@ -146,6 +146,28 @@ def gen_structure(rng, name=None, natoms=None):
     return {'name': name, 'latt': n, 'symm': list(symms), 'cell': cell, 'atoms': atoms, 'qpeaks': qpeaks}
 
 
+def gen_chain(rng):
+    """a polymer chain running along a lattice direction of a P1 / P-1 cell: every atom is bonded to the next one and the last one to the
+    lattice translate of the first, so that the fragment is bonded to its own images under pure lattice translations (also ones whose
+    components cancel, such as [1 -1 0])"""
+    name = rng.choice(['P1', 'P-1'])
+    n, symms = sg.TABLE[name]
+    cell = gen_cell(rng, 'tri')
+    M = ortho(cell)
+    direction = rng.choice([[1, -1, 0], [1, 0, -1], [0, 1, -1], [1, 0, 0], [0, 1, 0], [1, 1, 0], [-1, 1, 0], [1, -1, 1]])
+    dv = mv(M, direction)
+    length = math.sqrt(sum(x * x for x in dv))
+    k = max(2, int(round(length / 1.45)))
+    start = [rng.uniform(0.2, 0.4) for _ in range(3)] if name == 'P1' else [0.25 + rng.uniform(-0.02, 0.02), 0.3, 0.35]
+    atoms = []
+    for j in range(k):
+        p = [start[i] + direction[i] * j / k + rng.uniform(-0.004, 0.004) for i in range(3)]
+        atoms.append({'el': rng.choice(['C', 'C', 'N', 'O']), 'xyz': [round(x, 5) for x in p], 'part': 0})
+    for i, a in enumerate(atoms):
+        a['name'] = '%s%d' % (a['el'], i + 1)
+    return {'name': name, 'latt': n, 'symm': list(symms), 'cell': cell, 'atoms': atoms, 'qpeaks': []}
+
+
 def to_text(st):
     sf = ELEMENTS
     lines = ['TITL %s' % st['name'].replace('/', ''), 'CELL 0.71073 ' + ' '.join('%s' % x for x in st['cell']),
